@@ -95,6 +95,11 @@ def gen_spec(rng):
             aliases.append({"name": "n" + v, "of": v, "sign": -1})
     # histories: kind per member is shared, values differ
     hkind = rng.choice(["none", "one", "full", "full", "partial", "mixed", "nan"])
+    # "late" instances: a time-varying delay whose look-back t - tau(t) is smallest at a LATER stamp and
+    # reaches before the first history stamp there, while t0 - tau(t0) is covered by the history
+    late = rng.random() < 0.2
+    if late:
+        hkind = "full"
     srcs = states + algs + [c["name"] for c in controls]
     hshape = {}
     if hkind != "none":
@@ -115,9 +120,19 @@ def gen_spec(rng):
                 vals[rng.randrange(len(ts) - 1)] = NAN
             hm[v] = {"times": ts, "values": vals}
         history.append(hm)
+    if late:
+        hist_first = min(t for ts in hshape.values() for t in ts)
+        vals = []
+        for m in range(E):
+            j = rng.randrange(1, n)
+            row = [0.0] + [dy(rng, 0, 1) for _ in times[1:]]
+            row[j] = (times[j] - 0.25 - hist_first) + rng.choice([0.25, 0.5, 1.0])
+            vals.append(row)
+        cins.append({"name": "ctau", "times": list(times), "kind": "grid", "values": vals})
+        modes["ctau"] = 0
     delays = []
     for i, out in enumerate(outs):
-        pool = [v for v in srcs if v != recv] + [c["name"] for c in cins]
+        pool = [v for v in srcs if v != recv] + [c["name"] for c in cins if c["name"] != "ctau"]
         if i == 0 and recv:
             out = recv
         for _ in range(20):
@@ -137,7 +152,11 @@ def gen_spec(rng):
             terms, const = {states[0]: 1.0}, 0.0
         steps = [b - a for a, b in zip(times[:-1], times[1:])]
         tk = rng.choice(["zero", "small", "step", "big", "huge", "par", "par", "cin"])
-        if tk == "zero":
+        if late and i == 0:
+            tk = "cinlate"
+        if tk == "cinlate":
+            tau = {"const": 0.25, "cin": ["ctau", 1.0]}
+        elif tk == "zero":
             tau = 0.0
         elif tk == "small":
             tau = min(steps) / 2
@@ -150,7 +169,7 @@ def gen_spec(rng):
         elif tk == "par":
             tau = {"const": rng.choice([0.0, 0.25]), "par": ["ptau", rng.choice([1.0, 0.5, 2.0])]}
         else:
-            tau = {"const": 0.25, "cin": [cins[0]["name"], 0.5]} if cins else 1.0
+            tau = {"const": 0.25, "cin": [cins[0]["name"], 0.5]} if cins and cins[0]["name"] != "ctau" else 1.0
         outname = out
         if any(a["name"] == "n" + out for a in aliases) and rng.random() < 0.6:
             outname = "n" + out
@@ -663,7 +682,8 @@ def run(c):
         "optimisation: synthetic problems (states, algebraic states, controls incl. coarser grids, constant inputs, "
         "negated aliases, nominals, modes 0/1/2) with 1-2 delayed feedbacks (receiving variable: an algebraic state on the "
         "collocation grid or a control on a coarser own grid with nominal != 1, also through a negated alias) y = delay(const + sum coef*var, tau); tau in "
-        "{0, < dt, = a step, > dt, longer than the history, parameter-dependent (per member), input-dependent (time varying)}; "
+        "{0, < dt, = a step, > dt, longer than the history, parameter-dependent (per member), input-dependent (time varying, incl. look-back t - tau(t) "
+        "that is smallest at a later stamp and leaves the history there while t0 - tau(t0) is covered)}; "
         "histories none / one point / full / partial / different stamps per variable / NaN gaps; non-uniform grids, t0 != 0, "
         "problem-level `equidistant` flag True/False; "
         "E <= 2.  simulation: generated .mo models (two delays, one through a negated alias, tau = 0, < dt, integer and "
